@@ -592,25 +592,23 @@ Proof.
   intros H; inversion H; subst. apply andb_true_iff in E. apply E.
 Qed.
 
-(** [required KUnicode] is not enforced by the reader: class F16 *)
 Lemma parse_unicode_spec ver seen a cps cps' :
   (ver = 1 \/ ver = 2) ->
   parse_unicode pf ver seen a cps = Ok cps' ->
   NoDup cps -> Forall (fun c => is_scalar c = true) cps ->
-  (has_key k_hex a = true -> attrs_ok pf ver KUnicode a) /\
+  attrs_ok pf ver KUnicode a /\
   NoDup cps' /\ Forall (fun c => is_scalar c = true) cps'.
 Proof.
   intros Hv. unfold parse_unicode.
   destruct (attr_loop pf ver KUnicode false seen [] a) as [[s seen1]| |] eqn:L; cbn [bind]; try discriminate.
-  apply loop0 in L as (F2 & ND & EX & V1). intros H NDc Fc. split.
-  - intros HK. apply attrs_ok_of_loop with (parsed := s); auto; [no_file_arm|].
-    intros r [<-|[]]. apply has_key_In. exact HK.
-  - pose proof (store_lookup ver KUnicode a s k_hex F2) as Hh.
-    destruct (lookup k_hex s) as [y|].
-    + destruct Hh as (v & ty & La & Lt & PR). vm_compute in Lt. inversion Lt; subst ty.
-      destruct PR as (c & -> & E). inversion H; subst. apply cps_insert_ok; auto.
-      eapply parse_hex_scalar; eauto.
-    + inversion H; subst. auto.
+  apply loop0 in L as (F2 & ND & EX & V1). intros H NDc Fc.
+  pose proof (store_lookup ver KUnicode a s k_hex F2) as Hh.
+  destruct (lookup k_hex s) as [y|]; [|discriminate].
+  destruct Hh as (v & ty & La & Lt & PR). vm_compute in Lt. inversion Lt; subst ty.
+  destruct PR as (c & -> & E). inversion H; subst. split.
+  - apply attrs_ok_of_loop with (parsed := s); auto; [no_file_arm|].
+    intros r [<-|[]]. apply lookup_In in La. apply (in_map fst) in La. exact La.
+  - apply cps_insert_ok; auto. eapply parse_hex_scalar; eauto.
 Qed.
 
 (* ---------- contours ---------- *)
@@ -737,7 +735,6 @@ Lemma parse_outline_kids_spec ver :
   (ver = 1 \/ ver = 2) ->
   forall l seen cs ks cs' ks' seen',
   parse_outline_kids pf ver seen cs ks l = Ok (cs', ks', seen') ->
-  existsb f16_outline_child l = false ->
   exists nc nk, cs' = cs ++ nc /\ ks' = ks ++ nk /\
     forallb is_element l = true /\
     Forall (outline_child_ok pf ver) l /\
@@ -751,31 +748,35 @@ Lemma parse_outline_kids_spec ver :
     (ver = 1 -> flat_map outline_child_ids l = []).
 Proof.
   intros Hv. induction l as [|n l IH]; intros seen cs ks cs' ks' seen'; cbn [parse_outline_kids].
-  - intros H _; inversion H; subst. exists [], []. rewrite !app_nil_r.
+  - intros H; inversion H; subst. exists [], []. rewrite !app_nil_r.
     repeat split; try constructor; try apply extends_nil; try (intros i []).
-  - cbn [existsb]. intros H HF. apply orb_false_iff in HF as [HF1 HF].
+  - intros H.
     destruct n as [name a|name a kids| | | | | |]; try discriminate.
     + (* self-closing element *)
       destruct (ekind_of name) as [k|] eqn:EK; [|discriminate]. destruct k; try discriminate.
-      * (* <contour/>: attributes not looked at; outside F16 there are none *)
-        assert (a = []) as ->.
-        { revert HF1. unfold f16_outline_child. kind_simpl EK. destruct a; [reflexivity|discriminate]. }
-        apply IH in H as (nc & nk & E1 & E2 & EL & OK & CR & KR & CL & KL & PM & EX & NDo & INC & V1); [|exact HF].
+      * (* <contour .../>: attributes as for a start tag, the contour itself is dropped *)
+        destruct (attr_loop pf ver KContour true seen [] a) as [[s0 seen1]| |] eqn:LA; cbn [bind] in H; try discriminate.
+        apply loop0 in LA as (F2 & NDa & EXa & V1a).
+        rewrite (ids_in_ident KContour a (ident_kind_cases KContour) NDa) in *.
+        apply IH in H as (nc & nk & E1 & E2 & EL & OK & CR & KR & CL & KL & PM & EX & NDo & INC & V1).
+        assert (AO : attrs_ok pf ver KContour a).
+        { apply attrs_ok_of_loop with (parsed := s0); auto; [no_file_arm|intros r []]. }
         exists nc, nk. split; [exact E1|]. split; [exact E2|]. split; [exact EL|].
         split.
         { constructor; [|exact OK]. left. unfold contour_ok. kind_simpl EK.
-          split; [reflexivity|]. split; [apply attrs_ok_nil; reflexivity|].
-          split; [constructor|apply legal_nil]. }
-        assert (I0 : outline_child_ids (Empty name []) = []).
-        { unfold outline_child_ids, contour_ids. kind_simpl EK. reflexivity. }
-        assert (O0 : outline_child_obj_ids (Empty name []) = []).
+          split; [reflexivity|]. split; [exact AO|]. split; [constructor|apply legal_nil]. }
+        assert (I0 : outline_child_ids (Empty name a) = attr_ident a).
+        { unfold outline_child_ids, contour_ids. kind_simpl EK. apply app_nil_r. }
+        assert (O0 : outline_child_obj_ids (Empty name a) = []).
         { unfold outline_child_obj_ids. kind_simpl EK. reflexivity. }
         cbn [flat_map]. rewrite I0, O0. cbn [app].
         split; [exact CR|]. split; [exact KR|]. split; [exact CL|]. split; [exact KL|].
-        split; [exact PM|]. split; [exact EX|]. split; [exact NDo|]. split; [exact INC|exact V1].
+        split; [exact PM|]. split; [eapply extends_trans; eauto|]. split; [exact NDo|].
+        split; [intros x Hx; apply in_app_iff; right; apply INC; exact Hx|].
+        intros H1. rewrite (V1a H1), (V1 H1). reflexivity.
       * (* <component .../> *)
         destruct (parse_component pf ver seen a) as [[c seen1]| |] eqn:PC; cbn [bind]; try discriminate.
-        apply IH in H as (nc & nk & E1 & E2 & EL & OK & CR & KR & CL & KL & PM & EX & NDo & INC & V1); [|exact HF].
+        apply IH in H as (nc & nk & E1 & E2 & EL & OK & CR & KR & CL & KL & PM & EX & NDo & INC & V1).
         apply parse_component_spec in PC as (AO & CRc & CLc & IDc & EXc & V1c); [|exact Hv].
         exists nc, (c :: nk). split; [exact E1|]. rewrite <- app_assoc in E2. cbn [app] in E2.
         split; [exact E2|]. split; [exact EL|].
@@ -798,7 +799,7 @@ Proof.
     + (* <contour ...> ... </contour> *)
       destruct (ekind_of name) as [k|] eqn:EK; [|discriminate]. destruct k; try discriminate.
       destruct (parse_contour pf ver seen a kids) as [[c seen1]| |] eqn:PC; cbn [bind]; try discriminate.
-      apply IH in H as (nc & nk & E1 & E2 & EL & OK & CR & KR & CL & KL & PM & EX & NDo & INC & V1); [|exact HF].
+      apply IH in H as (nc & nk & E1 & E2 & EL & OK & CR & KR & CL & KL & PM & EX & NDo & INC & V1).
       apply parse_contour_spec in PC as (AO & ELc & LFc & LGc & EXc & V1c & Hc); [|exact Hv].
       pose proof (sig_kids_tview kids ELc) as SK.
       assert (C0 : contour_ids (Elem name a kids) = attr_ident a ++ npids (tview kids)).
@@ -882,10 +883,6 @@ Ltac perm_count :=
          end;
   rewrite ?count_occ_app in *; cbn [count_occ] in *; lia.
 
-Definition notes_shape (ns : list bool) (o : option str) : Prop :=
-  (o = None /\ forallb (fun b => b) ns = true) \/
-  (o <> None /\ exists ns', ns = ns' ++ [false] /\ forallb (fun b => b) ns' = true).
-
 Definition grules (g : glyph) : Prop :=
   name_valid (gname g) = true /\
   NoDup (gcps g) /\ Forall (fun c => is_scalar c = true) (gcps g) /\
@@ -901,13 +898,13 @@ Lemma glyph_ids_eq g :
 Proof. reflexivity. Qed.
 
 Record inv (ver : N) (pre : list node) (st : pst) : Prop := mkInv {
-  i_ok : Forall (child_ok pf ver) pre;
+  i_ok : Forall (fun n => f16_child n = false -> child_ok pf ver n) pre;
   i_el : forallb is_element pre = true;
   i_adv : count_kind KAdvance pre = if st_adv st then 1%nat else 0%nat;
   i_out : count_kind KOutline pre = if st_out st then 1%nat else 0%nat;
   i_lib : count_kind KLib pre = if st_lib st then 1%nat else 0%nat;
   i_img : count_kind KImage pre = match gimage (st_g st) with Some _ => 1%nat | None => 0%nat end;
-  i_note : notes_shape (map textless (filter (is_kind KNote) pre)) (gnote (st_g st));
+  i_note : count_kind KNote pre = if st_note st then 1%nat else 0%nat;
   i_seen : extends [] (doc_ids pre) (st_seen st);
   i_objs : NoDup (doc_obj_ids pre) /\ incl (doc_obj_ids pre) (doc_ids pre);
   i_perm : Permutation (glyph_ids (st_g st)) (doc_obj_ids pre);
@@ -933,15 +930,14 @@ Lemma forallb_snoc {A} (f : A -> bool) pre n : forallb f (pre ++ [n]) = forallb 
 Proof. rewrite forallb_app. cbn [forallb]. rewrite andb_true_r. reflexivity. Qed.
 
 Ltac gsimpl :=
-  cbn [st_g st_seen st_adv st_lib st_out set_adv set_cps set_note set_image set_guides set_anchors
+  cbn [st_g st_seen st_adv st_lib st_out st_note set_adv set_cps set_note set_image set_guides set_anchors
        set_outline set_lib gname gwidth gheight gcps gnote gimage gguides ganchors gcomps gcontours
        glib] in *.
 
 Lemma inv_init name : name_valid name = true -> forall ver,
-  inv ver [] (mkPst (glyph_new name) [] false false false).
+  inv ver [] (mkPst (glyph_new name) [] false false false false).
 Proof.
   intros Hn ver. constructor; gsimpl; try reflexivity; try (constructor; fail).
-  - left. split; reflexivity.
   - apply extends_nil.
   - split; [constructor|intros ? []].
   - unfold grules, glyph_new; gsimpl. repeat split; auto; constructor.
@@ -955,28 +951,24 @@ Proof.
   intros H1 H2 H3. unfold child_obj_ids, child_ids. rewrite H1, H2, H3. split; reflexivity.
 Qed.
 
-Lemma notes_shape_snoc_other ns o : notes_shape ns o -> notes_shape (ns ++ []) o.
-Proof. rewrite app_nil_r. auto. Qed.
-
 (** common part of a step whose element carries no identifiers and adds no object *)
-Lemma inv_frame ver pre st n g' (adv' lib' out' : bool) :
+Lemma inv_frame ver pre st n g' (adv' lib' out' note' : bool) :
   inv ver pre st ->
-  child_ok pf ver n -> is_element n = true ->
+  (f16_child n = false -> child_ok pf ver n) -> is_element n = true ->
   is_kind KAnchor n = false -> is_kind KGuideline n = false -> is_kind KOutline n = false ->
   (count_kind KAdvance pre + (if is_kind KAdvance n then 1 else 0) = if adv' then 1 else 0)%nat ->
   ((if st_out st then 1 else 0) = if out' then 1 else 0)%nat ->
   (count_kind KLib pre + (if is_kind KLib n then 1 else 0) = if lib' then 1 else 0)%nat ->
   (count_kind KImage pre + (if is_kind KImage n then 1 else 0)
    = match gimage g' with Some _ => 1 | None => 0 end)%nat ->
-  notes_shape (map textless (filter (is_kind KNote) pre ++ if is_kind KNote n then [n] else []))
-              (gnote g') ->
+  (count_kind KNote pre + (if is_kind KNote n then 1 else 0) = if note' then 1 else 0)%nat ->
   glyph_ids g' = glyph_ids (st_g st) -> grules g' -> nolibs g' ->
   map (lib_dict pf) (filter (is_kind KLib) pre ++ if is_kind KLib n then [n] else [])
     = (if lib' then [Some (glib g')] else []) ->
   (lib' = false -> glib g' = []) ->
-  inv ver (pre ++ [n]) (mkPst g' (st_seen st) adv' lib' out').
+  inv ver (pre ++ [n]) (mkPst g' (st_seen st) adv' lib' out' note').
 Proof.
-  intros I OK EL K1 K2 K3 CA CO CL CI NS GI GR NL LD L0.
+  intros I OK EL K1 K2 K3 CA CO CL CI CN GI GR NL LD L0.
   destruct (no_ids n K1 K2 K3) as [N1 N2].
   constructor; gsimpl.
   - apply Forall_app. split; [apply (i_ok _ _ _ I)|repeat constructor; exact OK].
@@ -985,7 +977,7 @@ Proof.
   - rewrite count_kind_snoc, K3, Nat.add_0_r, (i_out _ _ _ I). exact CO.
   - rewrite count_kind_snoc. exact CL.
   - rewrite count_kind_snoc. exact CI.
-  - rewrite filter_snoc. exact NS.
+  - rewrite count_kind_snoc. exact CN.
   - rewrite doc_ids_snoc, N1, app_nil_r. apply (i_seen _ _ _ I).
   - rewrite doc_ids_snoc, doc_obj_ids_snoc, N1, N2, !app_nil_r. apply (i_objs _ _ _ I).
   - rewrite doc_obj_ids_snoc, N2, app_nil_r, GI. apply (i_perm _ _ _ I).
@@ -995,22 +987,12 @@ Proof.
   - exact L0.
 Qed.
 
-Lemma note_of_None kids :
-  note_of None kids = None <-> textless (Elem [] [] kids) = true.
-Proof.
-  unfold note_of, textless, note_texts, kids_of; cbn [as_elem].
-  destruct (filter (fun s => negb (blank s)) (flat_map texts_of kids)) as [|x l] eqn:E.
-  - cbn [rev]. split; reflexivity.
-  - split; [|discriminate]. destruct (rev (x :: l)) eqn:ER; [|discriminate].
-    apply (f_equal (@rev str)) in ER. rewrite rev_involutive in ER. discriminate.
-Qed.
-
 Lemma parse_child_inv ver pre st n st' :
   (ver = 1 \/ ver = 2) ->
-  inv ver pre st -> f16_child n = false ->
+  inv ver pre st ->
   parse_child pf ver st n = Ok st' -> inv ver (pre ++ [n]) st'.
 Proof.
-  intros Hv I HF. unfold parse_child.
+  intros Hv I. unfold parse_child.
   destruct n as [name a|name a kids| | | | | |]; try discriminate.
   - (* ---------- self-closing elements ---------- *)
     destruct (ekind_of name) as [k|] eqn:EK; [|discriminate].
@@ -1021,11 +1003,11 @@ Proof.
       intros H; inversion H; subst st'; clear H.
       apply parse_advance_spec in PA; [|exact Hv].
       apply inv_frame; auto; try (kind_simpl EK; reflexivity).
-      * unfold child_ok, leaf_ok. kind_simpl EK. auto.
+      * intros _. unfold child_ok, leaf_ok. kind_simpl EK. auto.
       * kind_simpl EK. rewrite (i_adv _ _ _ I), SA. reflexivity.
       * kind_simpl EK. rewrite Nat.add_0_r. apply (i_lib _ _ _ I).
       * kind_simpl EK. rewrite Nat.add_0_r. apply (i_img _ _ _ I).
-      * kind_simpl EK. rewrite app_nil_r. apply (i_note _ _ _ I).
+      * kind_simpl EK. rewrite Nat.add_0_r. apply (i_note _ _ _ I).
       * apply (i_rules _ _ _ I).
       * apply (i_nolibs _ _ _ I).
       * kind_simpl EK. rewrite app_nil_r. apply (i_libd _ _ _ I).
@@ -1035,14 +1017,12 @@ Proof.
       intros H; inversion H; subst st'; clear H.
       destruct (i_rules _ _ _ I) as (R1 & R2 & R3 & R4 & R5 & R6 & R7 & R8).
       apply parse_unicode_spec in PU as (AO & NDc & SCc); auto.
-      assert (HK : has_key k_hex a = true).
-      { revert HF. unfold f16_child. kind_simpl EK. fold k_hex. destruct (has_key k_hex a); [reflexivity|discriminate]. }
       apply inv_frame; auto; try (kind_simpl EK; reflexivity).
-      * unfold child_ok, leaf_ok. kind_simpl EK. auto.
+      * intros _. unfold child_ok, leaf_ok. kind_simpl EK. auto.
       * kind_simpl EK. rewrite Nat.add_0_r. apply (i_adv _ _ _ I).
       * kind_simpl EK. rewrite Nat.add_0_r. apply (i_lib _ _ _ I).
       * kind_simpl EK. rewrite Nat.add_0_r. apply (i_img _ _ _ I).
-      * kind_simpl EK. rewrite app_nil_r. apply (i_note _ _ _ I).
+      * kind_simpl EK. rewrite Nat.add_0_r. apply (i_note _ _ _ I).
       * unfold grules; gsimpl. repeat split; auto.
       * apply (i_nolibs _ _ _ I).
       * kind_simpl EK. rewrite app_nil_r. apply (i_libd _ _ _ I).
@@ -1055,11 +1035,11 @@ Proof.
       apply parse_image_spec in PI as (AO & IR); [|exact Hv].
       destruct (i_rules _ _ _ I) as (R1 & R2 & R3 & R4 & R5 & R6 & R7 & R8).
       apply inv_frame; auto; try (kind_simpl EK; reflexivity).
-      * unfold child_ok, leaf_ok. kind_simpl EK. split; [lia|auto].
+      * intros _. unfold child_ok, leaf_ok. kind_simpl EK. split; [lia|auto].
       * kind_simpl EK. rewrite Nat.add_0_r. apply (i_adv _ _ _ I).
       * kind_simpl EK. rewrite Nat.add_0_r. apply (i_lib _ _ _ I).
       * kind_simpl EK. gsimpl. rewrite (i_img _ _ _ I), GI. reflexivity.
-      * kind_simpl EK. rewrite app_nil_r. apply (i_note _ _ _ I).
+      * kind_simpl EK. rewrite Nat.add_0_r. apply (i_note _ _ _ I).
       * unfold grules; gsimpl. split; [exact R1|]. split; [exact R2|]. split; [exact R3|].
         split; [exact IR|]. auto.
       * apply (i_nolibs _ _ _ I).
@@ -1077,14 +1057,14 @@ Proof.
       assert (CO : child_obj_ids (Empty name a) = attr_ident a).
       { unfold child_obj_ids. kind_simpl EK. exact CI. }
       constructor; gsimpl.
-      * apply Forall_app. split; [apply (i_ok _ _ _ I)|repeat constructor].
+      * apply Forall_app. split; [apply (i_ok _ _ _ I)|repeat constructor]. intros _.
         unfold child_ok, leaf_ok. kind_simpl EK. split; [lia|auto].
       * rewrite forallb_snoc, (i_el _ _ _ I). reflexivity.
       * rewrite count_kind_snoc. kind_simpl EK. rewrite Nat.add_0_r. apply (i_adv _ _ _ I).
       * rewrite count_kind_snoc. kind_simpl EK. rewrite Nat.add_0_r. apply (i_out _ _ _ I).
       * rewrite count_kind_snoc. kind_simpl EK. rewrite Nat.add_0_r. apply (i_lib _ _ _ I).
       * rewrite count_kind_snoc. kind_simpl EK. rewrite Nat.add_0_r. apply (i_img _ _ _ I).
-      * rewrite filter_snoc. kind_simpl EK. rewrite app_nil_r. apply (i_note _ _ _ I).
+      * rewrite count_kind_snoc. kind_simpl EK. rewrite Nat.add_0_r. apply (i_note _ _ _ I).
       * rewrite doc_ids_snoc, CI. eapply extends_trans; [apply (i_seen _ _ _ I)|exact EX].
       * rewrite doc_ids_snoc, doc_obj_ids_snoc, CI, CO. destruct (i_objs _ _ _ I) as [O1 O2].
         pose proof EX as (_ & NDa & _).
@@ -1108,14 +1088,14 @@ Proof.
       assert (CO : child_obj_ids (Empty name a) = attr_ident a).
       { unfold child_obj_ids. kind_simpl EK. exact CI. }
       constructor; gsimpl.
-      * apply Forall_app. split; [apply (i_ok _ _ _ I)|repeat constructor].
+      * apply Forall_app. split; [apply (i_ok _ _ _ I)|repeat constructor]. intros _.
         unfold child_ok, leaf_ok. kind_simpl EK. split; [lia|auto].
       * rewrite forallb_snoc, (i_el _ _ _ I). reflexivity.
       * rewrite count_kind_snoc. kind_simpl EK. rewrite Nat.add_0_r. apply (i_adv _ _ _ I).
       * rewrite count_kind_snoc. kind_simpl EK. rewrite Nat.add_0_r. apply (i_out _ _ _ I).
       * rewrite count_kind_snoc. kind_simpl EK. rewrite Nat.add_0_r. apply (i_lib _ _ _ I).
       * rewrite count_kind_snoc. kind_simpl EK. rewrite Nat.add_0_r. apply (i_img _ _ _ I).
-      * rewrite filter_snoc. kind_simpl EK. rewrite app_nil_r. apply (i_note _ _ _ I).
+      * rewrite count_kind_snoc. kind_simpl EK. rewrite Nat.add_0_r. apply (i_note _ _ _ I).
       * rewrite doc_ids_snoc, CI. eapply extends_trans; [apply (i_seen _ _ _ I)|exact EX].
       * rewrite doc_ids_snoc, doc_obj_ids_snoc, CI, CO. destruct (i_objs _ _ _ I) as [O1 O2].
         pose proof EX as (_ & NDa & _).
@@ -1129,22 +1109,21 @@ Proof.
       * apply (i_lib0 _ _ _ I).
     + (* <outline/> *)
       destruct (st_out st) eqn:SO; [discriminate|].
+      destruct a as [|kv a]; cbn [no_attrs]; [|discriminate].
       intros H; inversion H; subst st'; clear H.
-      assert (a = []) as ->.
-      { revert HF. unfold f16_child. kind_simpl EK. destruct a; [reflexivity|discriminate]. }
       assert (CI : child_ids (Empty name []) = []).
       { unfold child_ids. kind_simpl EK. reflexivity. }
       assert (CO : child_obj_ids (Empty name []) = []).
       { unfold child_obj_ids. kind_simpl EK. reflexivity. }
       constructor; gsimpl.
-      * apply Forall_app. split; [apply (i_ok _ _ _ I)|repeat constructor].
+      * apply Forall_app. split; [apply (i_ok _ _ _ I)|repeat constructor]. intros _.
         unfold child_ok. kind_simpl EK. split; [reflexivity|constructor].
       * rewrite forallb_snoc, (i_el _ _ _ I). reflexivity.
       * rewrite count_kind_snoc. kind_simpl EK. rewrite Nat.add_0_r. apply (i_adv _ _ _ I).
       * rewrite count_kind_snoc. kind_simpl EK. rewrite (i_out _ _ _ I), SO. reflexivity.
       * rewrite count_kind_snoc. kind_simpl EK. rewrite Nat.add_0_r. apply (i_lib _ _ _ I).
       * rewrite count_kind_snoc. kind_simpl EK. rewrite Nat.add_0_r. apply (i_img _ _ _ I).
-      * rewrite filter_snoc. kind_simpl EK. rewrite app_nil_r. apply (i_note _ _ _ I).
+      * rewrite count_kind_snoc. kind_simpl EK. rewrite Nat.add_0_r. apply (i_note _ _ _ I).
       * rewrite doc_ids_snoc, CI, app_nil_r. apply (i_seen _ _ _ I).
       * rewrite doc_ids_snoc, doc_obj_ids_snoc, CI, CO, !app_nil_r. apply (i_objs _ _ _ I).
       * rewrite doc_obj_ids_snoc, CO, app_nil_r. apply (i_perm _ _ _ I).
@@ -1157,12 +1136,10 @@ Proof.
     destruct k; try discriminate.
     + (* outline *)
       destruct (st_out st) eqn:SO; [discriminate|].
+      destruct a as [|kv a]; cbn [no_attrs]; [|discriminate].
       unfold parse_outline.
       destruct (parse_outline_kids pf ver (st_seen st) [] [] (tview kids)) as [[[cs ks] seen1]| |] eqn:PO;
         cbn [bind]; try discriminate.
-      assert (a = [] /\ existsb f16_outline_child (tview kids) = false) as [-> HFo].
-      { revert HF. unfold f16_child. kind_simpl EK. destruct a; cbn [orb andb]; [|discriminate].
-        intros H. split; [reflexivity|exact H]. }
       apply parse_outline_kids_spec in PO
         as (nc & nk & E1 & E2 & EL & OK & CR & KR & CL & KL & PM & EX & NDo & INC & V1); auto.
       cbn [app] in E1, E2. subst nc nk.
@@ -1191,14 +1168,14 @@ Proof.
         - exists [], cs. repeat split; auto; constructor. }
       rewrite ES. intros H; inversion H; subst st'; clear H.
       constructor; gsimpl.
-      * apply Forall_app. split; [apply (i_ok _ _ _ I)|repeat constructor].
+      * apply Forall_app. split; [apply (i_ok _ _ _ I)|repeat constructor]. intros _.
         unfold child_ok. kind_simpl EK. rewrite SK. split; [reflexivity|exact OK].
       * rewrite forallb_snoc, (i_el _ _ _ I). reflexivity.
       * rewrite count_kind_snoc. kind_simpl EK. rewrite Nat.add_0_r. apply (i_adv _ _ _ I).
       * rewrite count_kind_snoc. kind_simpl EK. rewrite (i_out _ _ _ I), SO. reflexivity.
       * rewrite count_kind_snoc. kind_simpl EK. rewrite Nat.add_0_r. apply (i_lib _ _ _ I).
       * rewrite count_kind_snoc. kind_simpl EK. rewrite Nat.add_0_r. apply (i_img _ _ _ I).
-      * rewrite filter_snoc. kind_simpl EK. rewrite app_nil_r. apply (i_note _ _ _ I).
+      * rewrite count_kind_snoc. kind_simpl EK. rewrite Nat.add_0_r. apply (i_note _ _ _ I).
       * rewrite doc_ids_snoc, CI. eapply extends_trans; [apply (i_seen _ _ _ I)|exact EX].
       * rewrite doc_ids_snoc, doc_obj_ids_snoc, CI, CO. destruct (i_objs _ _ _ I) as [O1 O2].
         apply (objs_app [] _ (st_seen st) _ seen1); auto. apply (i_seen _ _ _ I).
@@ -1210,49 +1187,39 @@ Proof.
       * apply (i_lib0 _ _ _ I).
     + (* lib *)
       destruct (st_lib st) eqn:SL; [discriminate|].
+      destruct a as [|kv a]; cbn [no_attrs negb]; [|discriminate].
       destruct (plist_of_nodes pf kids) as [v|] eqn:PL; [|discriminate].
       destruct v; try discriminate.
       intros H; inversion H; subst st'; clear H.
-      assert (a = []) as ->.
-      { revert HF. unfold f16_child. kind_simpl EK. destruct a; [reflexivity|discriminate]. }
       assert (LD : lib_dict pf (Elem name [] kids) = Some d).
       { unfold lib_dict, kids_of; cbn [as_elem]. rewrite PL. reflexivity. }
       apply inv_frame; auto; try (kind_simpl EK; reflexivity).
-      * unfold child_ok. kind_simpl EK. split; [reflexivity|]. fold (kids_of (Elem name [] kids)).
+      * intros _. unfold child_ok. kind_simpl EK. split; [reflexivity|]. fold (kids_of (Elem name [] kids)).
         change (lib_dict pf (Elem name [] kids) <> None). congruence.
       * kind_simpl EK. rewrite Nat.add_0_r. apply (i_adv _ _ _ I).
       * kind_simpl EK. rewrite (i_lib _ _ _ I), SL. reflexivity.
       * kind_simpl EK. rewrite Nat.add_0_r. apply (i_img _ _ _ I).
-      * kind_simpl EK. rewrite app_nil_r. apply (i_note _ _ _ I).
+      * kind_simpl EK. rewrite Nat.add_0_r. apply (i_note _ _ _ I).
       * apply (i_rules _ _ _ I).
       * apply (i_nolibs _ _ _ I).
       * rewrite map_app, (i_libd _ _ _ I), SL. kind_simpl EK. cbn [map app]. rewrite LD. reflexivity.
       * discriminate.
     + (* note *)
       destruct (ver =? 1) eqn:EV; [discriminate|]. apply N.eqb_neq in EV.
-      destruct (gnote (st_g st)) eqn:GN; [discriminate|].
+      destruct (st_note st) eqn:SN; [discriminate|].
+      destruct a as [|kv a]; cbn [no_attrs negb]; [|discriminate].
       intros H; inversion H; subst st'; clear H.
-      assert (a = [] /\ has_elem_child kids = false) as [-> HE].
-      { revert HF. unfold f16_child. kind_simpl EK. destruct a; cbn [orb andb]; [|discriminate].
-        intros H. apply orb_false_iff in H as [H _]. split; [reflexivity|exact H]. }
       apply inv_frame; auto; try (kind_simpl EK; reflexivity).
-      * unfold child_ok. kind_simpl EK. split; [reflexivity|].
+      * intros HF. unfold child_ok. kind_simpl EK. split; [reflexivity|].
+        assert (HE : has_elem_child kids = false).
+        { revert HF. unfold f16_child. kind_simpl EK. intros H; exact H. }
         revert HE. unfold has_elem_child. clear. induction kids as [|k kids IH]; [reflexivity|].
         cbn [existsb forallb]. intros H. apply orb_false_iff in H as [H1 H2].
         rewrite (IH H2), andb_true_r. destruct k; cbn [is_chardata]; congruence.
       * kind_simpl EK. rewrite Nat.add_0_r. apply (i_adv _ _ _ I).
       * kind_simpl EK. rewrite Nat.add_0_r. apply (i_lib _ _ _ I).
       * kind_simpl EK. rewrite Nat.add_0_r. apply (i_img _ _ _ I).
-      * assert (IKN : is_kind KNote (Elem name [] kids) = true) by (kind_simpl EK; reflexivity).
-        rewrite IKN. gsimpl. rewrite map_app. cbn [map].
-        destruct (i_note _ _ _ I) as [[_ NS]|[NS _]]; [|congruence].
-        assert (TL : textless (Elem name [] kids) = textless (Elem [] [] kids)) by reflexivity.
-        rewrite TL. destruct (note_of None kids) eqn:NO.
-        -- right. split; [discriminate|]. eexists. split; [|exact NS].
-           destruct (textless (Elem [] [] kids)) eqn:TX; [|reflexivity].
-           apply note_of_None in TX. congruence.
-        -- left. split; [reflexivity|]. rewrite forallb_app, NS. cbn [forallb].
-           apply note_of_None in NO. rewrite NO. reflexivity.
+      * kind_simpl EK. rewrite (i_note _ _ _ I), SN. reflexivity.
       * apply (i_rules _ _ _ I).
       * apply (i_nolibs _ _ _ I).
       * kind_simpl EK. rewrite app_nil_r. apply (i_libd _ _ _ I).
@@ -1262,14 +1229,13 @@ Qed.
 Lemma parse_children_inv ver :
   (ver = 1 \/ ver = 2) ->
   forall l pre st st',
-  inv ver pre st -> existsb f16_child l = false ->
+  inv ver pre st ->
   parse_children pf ver st l = Ok st' -> inv ver (pre ++ l) st'.
 Proof.
-  intros Hv. induction l as [|n l IH]; intros pre st st' I HF; cbn [parse_children].
+  intros Hv. induction l as [|n l IH]; intros pre st st' I; cbn [parse_children].
   - intros H; inversion H; subst. rewrite app_nil_r. exact I.
-  - cbn [existsb] in HF. apply orb_false_iff in HF as [HF1 HF2].
-    destruct (parse_child pf ver st n) as [st1| |] eqn:PC; cbn [bind]; try discriminate.
-    intros H. apply (parse_child_inv ver pre st n st1 Hv I HF1) in PC.
+  - destruct (parse_child pf ver st n) as [st1| |] eqn:PC; cbn [bind]; try discriminate.
+    intros H. apply (parse_child_inv ver pre st n st1 Hv I) in PC.
     replace (pre ++ n :: l) with ((pre ++ [n]) ++ l) by (rewrite <- app_assoc; reflexivity).
     eapply IH; eauto.
 Qed.
@@ -1598,42 +1564,28 @@ Proof.
   rewrite MO, EV1. reflexivity.
 Qed.
 
-Lemma note_count l o :
-  notes_shape (map textless (filter (is_kind KNote) l)) o -> f16_notes l = false ->
-  (count_kind KNote l <= 1)%nat.
-Proof.
-  unfold count_kind, f16_notes. destruct (filter (is_kind KNote) l) as [|n1 [|n2 r]]; cbn [List.length map]; try lia.
-  intros NS HF. exfalso. destruct NS as [[_ NS]|[_ (ns' & E & NS)]].
-  - cbn [forallb] in NS. rewrite HF in NS. discriminate.
-  - destruct ns' as [|b ns']; cbn [app] in E; [discriminate|].
-    inversion E; subst. cbn [forallb] in NS. rewrite HF in NS. discriminate.
-Qed.
-
 Lemma flag_le (b : bool) n : n = (if b then 1 else 0)%nat -> (n <= 1)%nat.
 Proof. destruct b; lia. Qed.
 
-(** SOUNDNESS: an accepted document outside F16 obeys every rule, the returned glyph obeys the
-    glyph rules, and [public.objectLibs] is not a key of its lib. *)
-Theorem parse_sound d g :
-  parse_glif pf d = Ok g -> ~ F16 d ->
-  glif_ok pf d /\ glyph_rules g /\ lookup objlibs_key (glib g) = None.
+(** what every accepted document gives, with no class hypothesis: the invariant of the element
+    loop at the end of the body, the glyph rules, [public.objectLibs] gone *)
+Lemma parse_facts d g :
+  parse_glif pf d = Ok g ->
+  exists pre rname a kids post ver st,
+    d = pre ++ Elem rname a kids :: post /\ forallb prolog_node pre = true /\ ekind_of rname = Some KGlyph /\
+    attrs_ok pf 2 KGlyph a /\ version_of a = Some ver /\ (ver = 1 \/ ver = 2) /\
+    inv pf ver (tview kids) st /\ sig_kids kids = tview kids /\
+    glyph_rules g /\ lookup objlibs_key (glib g) = None /\
+    objlibs_ok (glyph_ids (st_g st)) (glib (st_g st)).
 Proof.
-  unfold parse_glif. intros H NF.
+  unfold parse_glif. intros H.
   destruct (find_root (tview d)) as [[a kids]| |] eqn:FR; cbn [bind] in H; try discriminate.
   destruct (parse_start pf a) as [[name ver]| |] eqn:PS; cbn [bind] in H; try discriminate.
-  destruct (parse_children pf ver (mkPst (glyph_new name) [] false false false) (tview kids))
+  destruct (parse_children pf ver (mkPst (glyph_new name) [] false false false false) (tview kids))
     as [st| |] eqn:PC; cbn [bind] in H; try discriminate.
   apply find_root_spec in FR as (pre & rname & post & -> & HP & EK).
   apply parse_start_spec in PS as (AO & VO & Hv & NV).
-  assert (RO : root_of (pre ++ Elem rname a kids :: post) = Some (Elem rname a kids))
-    by (apply root_of_app; auto).
-  assert (HF1 : existsb f16_child (tview kids) = false).
-  { destruct (existsb f16_child (tview kids)) eqn:E; [|reflexivity]. exfalso. apply NF.
-    exists (Elem rname a kids). split; [exact RO|left; exact E]. }
-  assert (HF2 : f16_notes (tview kids) = false).
-  { destruct (f16_notes (tview kids)) eqn:E; [|reflexivity]. exfalso. apply NF.
-    exists (Elem rname a kids). split; [exact RO|right; exact E]. }
-  pose proof (parse_children_inv pf ver Hv (tview kids) [] _ st (inv_init pf name NV ver) HF1 PC) as I.
+  pose proof (parse_children_inv pf ver Hv (tview kids) [] _ st (inv_init pf name NV ver) PC) as I.
   cbn [app] in I.
   pose proof (sig_kids_tview kids (i_el _ _ _ _ I)) as SK.
   destruct (i_objs _ _ _ _ I) as [O1 O2].
@@ -1641,13 +1593,42 @@ Proof.
   { eapply Permutation_NoDup; [apply Permutation_sym; apply (i_perm _ _ _ _ I)|exact O1]. }
   destruct (load_object_libs_spec _ _ H (i_rules _ _ _ _ I) (i_nolibs _ _ _ _ I) NDg)
     as (GR & _ & LK & OL & _).
+  exists pre, rname, a, kids, post, ver, st.
+  split; [reflexivity|]. split; [exact HP|]. split; [exact EK|]. split; [exact AO|]. split; [exact VO|].
+  split; [exact Hv|]. split; [exact I|]. split; [exact SK|]. split; [exact GR|]. split; [exact LK|exact OL].
+Qed.
+
+(** every returned glyph obeys the glyph rules (among them: identifiers unique over all five object
+    kinds) and [public.objectLibs] is not a key of its lib — for ALL documents *)
+Theorem parse_rules d g :
+  parse_glif pf d = Ok g -> glyph_rules g /\ lookup objlibs_key (glib g) = None.
+Proof.
+  intros H. destruct (parse_facts d g H) as (? & ? & ? & ? & ? & ? & ? & _ & _ & _ & _ & _ & _ & _ & _ & GR & LK & _).
+  auto.
+Qed.
+
+(** SOUNDNESS: an accepted document outside F16 obeys every rule. *)
+Theorem parse_sound d g :
+  parse_glif pf d = Ok g -> ~ F16 d ->
+  glif_ok pf d /\ glyph_rules g /\ lookup objlibs_key (glib g) = None.
+Proof.
+  intros H NF.
+  destruct (parse_facts d g H) as (pre & rname & a & kids & post & ver & st & -> & HP & EK & AO & VO & Hv & I & SK & GR & LK & OL).
   split; [|split; [exact GR|exact LK]].
+  assert (RO : root_of (pre ++ Elem rname a kids :: post) = Some (Elem rname a kids))
+    by (apply root_of_app; auto).
+  assert (HF1 : existsb f16_child (tview kids) = false).
+  { destruct (existsb f16_child (tview kids)) eqn:E; [|reflexivity]. exfalso. apply NF.
+    exists (Elem rname a kids). split; [exact RO|exact E]. }
   exists pre, (Elem rname a kids), post, ver.
   split; [reflexivity|]. split; [exact HP|].
   split; [unfold kind_of; cbn [as_elem]; exact EK|].
   unfold attrs_of, kids_of; cbn [as_elem]. split; [exact AO|]. split; [exact VO|].
   cbn zeta. rewrite SK.
-  split; [apply (i_ok _ _ _ _ I)|].
+  split.
+  { pose proof (i_ok _ _ _ _ I) as IO. rewrite Forall_forall in *. intros n Hn. apply IO; [exact Hn|].
+    destruct (f16_child n) eqn:E; [|reflexivity].
+    assert (existsb f16_child (tview kids) = true); [|congruence]. apply existsb_exists. eauto. }
   split.
   { intros n dd Hin HK LD. pose proof (i_libd _ _ _ _ I) as LDI.
     assert (Hm : In (lib_dict pf n) (map (lib_dict pf) (filter (is_kind KLib) (tview kids)))).
@@ -1659,7 +1640,7 @@ Proof.
   split; [eapply flag_le; apply (i_adv _ _ _ _ I)|].
   split; [eapply flag_le; apply (i_out _ _ _ _ I)|].
   split; [eapply flag_le; apply (i_lib _ _ _ _ I)|].
-  split; [eapply note_count; [apply (i_note _ _ _ _ I)|exact HF2]|].
+  split; [eapply flag_le; apply (i_note _ _ _ _ I)|].
   split; [pose proof (i_img _ _ _ _ I) as II; destruct (gimage (st_g st)); lia|].
   destruct (i_seen _ _ _ _ I) as (_ & ND & _). exact ND.
 Qed.
